@@ -262,6 +262,10 @@ def _check_klatt(case):
         for how, raw in (("UTF-16 little-endian with BOM", codecs.BOM_UTF16_LE + text.encode("utf-16-le")),
                          ("UTF-16 big-endian with BOM", codecs.BOM_UTF16_BE + text.encode("utf-16-be")),
                          ("UTF-8 with CR LF line ends", text.replace("\n", "\r\n").encode("utf-8")),
+                         # (lone CR line ends - classic Mac OS text files, which Praat reads - in both byte widths)
+                         ("UTF-8 with lone CR line ends", text.replace("\n", "\r").encode("utf-8")),
+                         ("UTF-16 little-endian with BOM and lone CR line ends", codecs.BOM_UTF16_LE + text.replace("\n", "\r").encode("utf-16-le")),
+                         ("UTF-16 big-endian with BOM and CR LF line ends", codecs.BOM_UTF16_BE + text.replace("\n", "\r\n").encode("utf-16-be")),
                          # layout: Praat ignores white space in front of a line; a file whose body (everything after the three header lines) is
                          # indented by four blanks / by one tab is the same KlattGrid
                          ("UTF-8, every line after the header indented by four blanks", "\n".join(body[:3] + [("    " + ln if ln.strip() else ln) for ln in body[3:]]).encode("utf-8")),
